@@ -64,7 +64,7 @@ pub struct Case {
     pub seed: u8,
 }
 
-fn case_strategy() -> BoxedStrategy<Case> {
+pub fn case_strategy() -> BoxedStrategy<Case> {
     (
         prop_oneof![Just(Kind::Chunk), Just(Kind::Pad), Just(Kind::Tx), Just(Kind::Reg)],
         prop_oneof![Just(Path::ClientPut), Just(Path::UnpaidUpdate), Just(Path::Replicated)],
@@ -109,7 +109,7 @@ fn all_payments_valid(kind: Kind, seed: u8) -> PayCase {
     PayCase { kind, paid: true, prior: 0, rt_peers: 4, s: SFault::Ok, p: true, k: KFault::Ok, e: EFault::Ok, o: [true; 3], rpc: Default::default(), a: true, own_pos: seed % 3, seed }
 }
 
-fn check(case: &Case, ctx: &mut Ctx) {
+pub fn check(case: &Case, ctx: &mut Ctx) {
     let mut cl = Cluster::new(&[1], None);
     let pl = payload(case.kind, case.seed);
     let other = payload(case.kind, case.seed.wrapping_add(101));
@@ -332,5 +332,6 @@ pub fn run(cfg: RunCfg) {
         "non-trivial: key mismatched (or mixed-owner vector); distinct by (kind, path, mismatch class, shape, prior, other held)",
         case_strategy, check
     );
+    vh_core::fuzz_section!(rep, "address", case_strategy, check, "sec_node", "node", 8_000, 300, 12);
     rep.finish();
 }
